@@ -1,2 +1,940 @@
-// Package c12 is the check for property C12 (see DESIGN.md section 3).
+// Package c12: type filtering yields a self-contained, minimal, otherwise unchanged image.
+//
+// Bounded-exhaustive exploration of bufimageutil.FilterImage: for every image of a hand-written
+// catalogue (covering every reference kind the property names) and EVERY filter whose include and
+// exclude sets are subsets (size <= 2) of ALL names of the image (packages, messages, nested
+// messages, map entries, groups, enums, services, methods, extensions), under every combination of
+// WithExcludeCustomOptions / WithExcludeKnownExtensions / WithAllowIncludeOfImportedType /
+// WithMutateInPlace, the real FilterImage is run and its result is judged by an independent
+// reference model (model.go) and by structural oracles (oracle.go):
+//
+//	links          every file links against the earlier files of the image (protodesc, nothing unresolvable)
+//	closure        every included element and everything it needs is present (lower bound of the model)
+//	minimal        nothing is present that the model does not allow (upper bound), namespace-only messages are shells
+//	no-excluded    no excluded element is present and nothing references one
+//	unchanged      every surviving file equals the pristine one minus dropped declarations/members
+//	comments       every surviving location is the original location of the same-named element, none lost
+//	no-error       a filter of existing names that is not contradictory does not fail
+//	idempotent     filtering the result again with the still-existing names changes nothing
+//	in-place       WithMutateInPlace gives the same image as copying; copying leaves the input untouched
 package c12
+
+import (
+	"context"
+	"encoding/json"
+	"errors"
+	"fmt"
+	"sort"
+	"strings"
+	"sync"
+	"time"
+
+	"github.com/bufbuild/buf/private/bufpkg/bufimage"
+	"github.com/bufbuild/buf/private/bufpkg/bufimage/bufimageutil"
+	"github.com/bufbuild/bufverif/internal/bufx"
+	"github.com/bufbuild/bufverif/internal/enum"
+	"github.com/bufbuild/bufverif/internal/evid"
+	"google.golang.org/protobuf/proto"
+	"google.golang.org/protobuf/reflect/protodesc"
+	"google.golang.org/protobuf/reflect/protoreflect"
+	"google.golang.org/protobuf/types/descriptorpb"
+)
+
+func init() {
+	evid.Register(&evid.Check{ID: "C12", Level: "exploration", Run: run, QuickBudget: 150 * time.Second, ThoroughBudget: 20 * time.Minute})
+	evid.RegisterReplay("C12", replay)
+}
+
+// builtImage is one catalogue image, built once.
+type builtImage struct {
+	spec     imageSpec
+	master   bufimage.Image // only ever cloned
+	pristine map[string]*descriptorpb.FileDescriptorProto
+	order    []string
+	isImport map[string]bool
+	model    *imageModel
+	names    []string // the filter universe
+	hasExt   bool
+	importNm map[string]bool // universe names that live in import files only
+	sci      map[string]sciIndex
+}
+
+func isWKT(path string) bool { return strings.HasPrefix(path, "google/protobuf/") }
+
+func buildImage(ctx context.Context, spec imageSpec) (*builtImage, error) {
+	ws, err := bufx.Workspace(ctx, bufx.MemBucket(spec.Files), ".", spec.Targets, nil, bufx.NopProviders)
+	if err != nil {
+		return nil, err
+	}
+	img, err := bufx.BuildWorkspaceImage(ctx, ws)
+	if err != nil {
+		return nil, err
+	}
+	bi := &builtImage{spec: spec, master: img, pristine: map[string]*descriptorpb.FileDescriptorProto{}, isImport: map[string]bool{}, importNm: map[string]bool{}, sci: map[string]sciIndex{}}
+	var fds []*descriptorpb.FileDescriptorProto
+	for _, f := range img.Files() {
+		c := proto.CloneOf(f.FileDescriptorProto())
+		bi.pristine[f.Path()] = c
+		bi.order = append(bi.order, f.Path())
+		bi.isImport[f.Path()] = f.IsImport()
+		bi.sci[f.Path()] = buildSciIndex(c)
+		fds = append(fds, c)
+	}
+	if bi.model, err = buildModel(fds, bi.isImport); err != nil {
+		return nil, err
+	}
+	seen := map[string]bool{}
+	add := func(n string) {
+		if !seen[n] {
+			seen[n] = true
+			bi.names = append(bi.names, n)
+		}
+	}
+	for _, f := range bi.model.Files {
+		if isWKT(f.Path) {
+			continue
+		}
+		add(f.Pkg)
+		for _, n := range f.All {
+			add(n)
+			if bi.model.El[n].Kind == kExt {
+				bi.hasExt = true
+			}
+		}
+	}
+	for _, n := range spec.ExtraNames {
+		if !bi.model.isName(n) {
+			return nil, fmt.Errorf("extra name %q does not exist in image %s", n, spec.Name)
+		}
+		add(n)
+	}
+	sort.Strings(bi.names)
+	for _, n := range bi.names {
+		if e, ok := bi.model.El[n]; ok {
+			bi.importNm[n] = bi.isImport[e.File]
+			continue
+		}
+		only := true
+		for _, f := range bi.model.Pkgs[n] {
+			if !f.Import {
+				only = false
+			}
+		}
+		bi.importNm[n] = only
+	}
+	return bi, nil
+}
+
+// stats are per-clause coverage counters, merged under a lock at the end of each work item.
+type stats struct {
+	m map[string]int
+}
+
+func (s *stats) inc(k string)        { s.m[k]++ }
+func (s *stats) add(k string, n int) { s.m[k] += n }
+
+// itemCtx is the private state of one work item (one goroutine).
+type itemCtx struct {
+	bi        *builtImage
+	img       bufimage.Image
+	prelinked map[*descriptorpb.FileDescriptorProto]protoreflect.FileDescriptor
+	st        *stats
+}
+
+func newItemCtx(bi *builtImage, st *stats) (*itemCtx, error) {
+	img, err := bufimage.CloneImage(bi.master)
+	if err != nil {
+		return nil, err
+	}
+	c := &itemCtx{bi: bi, img: img, st: st, prelinked: map[*descriptorpb.FileDescriptorProto]protoreflect.FileDescriptor{}}
+	files, err := protodesc.NewFiles(bufimage.ImageToFileDescriptorSet(img))
+	if err != nil {
+		return nil, err
+	}
+	for _, f := range img.Files() {
+		d, err := files.FindFileByPath(f.Path())
+		if err != nil {
+			return nil, err
+		}
+		c.prelinked[f.FileDescriptorProto()] = d
+	}
+	return c, nil
+}
+
+func filterOptions(fc *filterCase, inc, exc []string) []bufimageutil.ImageFilterOption {
+	var o []bufimageutil.ImageFilterOption
+	if len(inc) > 0 {
+		o = append(o, bufimageutil.WithIncludeTypes(inc...))
+	}
+	if len(exc) > 0 {
+		o = append(o, bufimageutil.WithExcludeTypes(exc...))
+	}
+	if fc.NoCustom {
+		o = append(o, bufimageutil.WithExcludeCustomOptions())
+	}
+	if fc.NoKnown {
+		o = append(o, bufimageutil.WithExcludeKnownExtensions())
+	}
+	if fc.AllowImported {
+		o = append(o, bufimageutil.WithAllowIncludeOfImportedType())
+	}
+	if fc.InPlace {
+		o = append(o, bufimageutil.WithMutateInPlace())
+	}
+	return o
+}
+
+func safeFilter(img bufimage.Image, opts []bufimageutil.ImageFilterOption) (out bufimage.Image, err error, panicked any) {
+	defer func() {
+		if p := recover(); p != nil {
+			panicked = p
+		}
+	}()
+	out, err = bufimageutil.FilterImage(img, opts...)
+	return
+}
+
+// classifyError gives an unexpected FilterImage error its signature.
+func (c *itemCtx) classifyError(fc *filterCase, ex *expectation, err error) *finding {
+	msg := err.Error()
+	m := c.bi.model
+	if strings.Contains(msg, "cannot include method") {
+		// which excluded name is an RPC request/response type of a method that the filter does not name?
+		for _, e := range m.El {
+			if e.Kind != kMethod || contains(fc.Include, e.Name) {
+				continue
+			}
+			if ex.EffExcl(e.In) || ex.EffExcl(e.Out) {
+				return &finding{"no-error/excluded-rpc-type/cannot-include-method",
+					fmt.Sprintf("the filter excludes the request/response type of method %s (which the filter does not name); the method should be dropped, instead FilterImage fails: %v", e.Name, err)}
+			}
+		}
+	}
+	if strings.HasPrefix(msg, "missing ") || strings.Contains(msg, ": missing ") {
+		for _, f := range m.Files {
+			if len(f.All) == 0 && strings.Contains(msg, fmt.Sprintf("missing %q", f.Path)) {
+				return &finding{"no-error/file-without-types/missing-file",
+					fmt.Sprintf("the image contains file %s which declares no types; FilterImage fails on it although the filter only names existing, unrelated types: %v", f.Path, err)}
+			}
+		}
+	}
+	return &finding{"no-error/other/" + normErr(err), fmt.Sprintf("filter of existing, non-contradictory names failed: %v", err)}
+}
+
+func contains(xs []string, x string) bool {
+	for _, y := range xs {
+		if x == y {
+			return true
+		}
+	}
+	return false
+}
+
+// evalCase runs one copy-mode case with all oracles. It returns the first finding (nil if none),
+// the filtered image (nil on error) and the error.
+func (c *itemCtx) evalCase(fc *filterCase) (*finding, bufimage.Image, error, *expectation) {
+	ex := c.bi.model.expect(fc)
+	fnd, out, err := c.evalWith(fc, ex)
+	if fnd != nil && ex.RPCTrigger != "" && !specificRootCause[fnd.Sig] {
+		// Known defect family F3a: the service walk marks the request type of a method excluded
+		// instead of dropping the method. Everything that goes wrong in a case that sits on this
+		// graph position is attributed to it (coarse class = the oracle that noticed).
+		class := strings.SplitN(fnd.Sig, "/", 2)[0]
+		fnd = &finding{"rpc-type-excluded/" + class, fmt.Sprintf("[filter excludes the request/response type of method %s, which the filter does not name] %s", ex.RPCTrigger, fnd.What)}
+	}
+	return fnd, out, err, ex
+}
+
+// specificRootCause are signatures that already name one defect precisely; they are never
+// re-attributed to the excluded-RPC-type family.
+var specificRootCause = map[string]bool{
+	"links/map-entry-lost-field":                  true,
+	"links/oneof-index-not-remapped":              true,
+	"links/import-file-content-not-walked":        true,
+	"minimal/extra/extendee-of-dropped-extension": true,
+	"no-error/file-without-types/missing-file":    true,
+	"empty-result/unfiltered-image-returned":      true,
+	"comments/dangling-path/weak-dependency":      true,
+	"in-place/copy-mode-mutated-input":            true,
+}
+
+func (c *itemCtx) evalWith(fc *filterCase, ex *expectation) (*finding, bufimage.Image, error) {
+	m := c.bi.model
+	st := c.st
+	out, err, panicked := safeFilter(c.img, filterOptions(fc, fc.Include, fc.Exclude))
+	if panicked != nil {
+		return &finding{"panic/filter", fmt.Sprintf("FilterImage panicked: %v", panicked)}, nil, nil
+	}
+	if ex.MustFail != "" {
+		st.inc("clause_must_fail")
+		if err == nil {
+			return &finding{"error-missing/" + ex.MustFail, "FilterImage accepted a filter that the documented contract rejects (" + ex.MustFail + ")"}, nil, nil
+		}
+		if ex.Contradictory == "" && ex.RPCTrigger == "" {
+			want := bufimageutil.ErrImageFilterTypeNotFound
+			if ex.MustFail == "is-import" {
+				want = bufimageutil.ErrImageFilterTypeIsImport
+			}
+			if !errors.Is(err, want) {
+				// another legitimate reason may be reported first only if there is one; there is none here
+				return &finding{"error-kind/" + ex.MustFail + "/" + normErr(err), fmt.Sprintf("expected an error wrapping %q, got: %v", want, err)}, nil, err
+			}
+		}
+		return nil, nil, err
+	}
+	if err != nil {
+		if ex.Contradictory != "" {
+			st.inc("clause_contradictory_filter_rejected")
+			return nil, nil, err
+		}
+		if strings.Contains(err.Error(), "image contains no files") && len(ex.L.Files) == 0 {
+			st.inc("clause_empty_result_rejected")
+			return nil, nil, err
+		}
+		return c.classifyError(fc, ex, err), nil, err
+	}
+	st.inc("clause_no_error_checked")
+	if out == c.img && len(ex.L.Files) == 0 {
+		return &finding{"empty-result/unfiltered-image-returned", fmt.Sprintf("the filter excludes every target file of the image (nothing is left that needs anything), but FilterImage returned the complete, unfiltered input image (%d files) without error", len(out.Files()))}, out, nil
+	}
+
+	// the input must not have been touched (copy mode)
+	for _, f := range c.img.Files() {
+		if isWKT(f.Path()) {
+			continue
+		}
+		if !proto.Equal(f.FileDescriptorProto(), c.bi.pristine[f.Path()]) {
+			return &finding{"in-place/copy-mode-mutated-input", fmt.Sprintf("FilterImage without WithMutateInPlace modified the input file %s", f.Path())}, out, nil
+		}
+	}
+
+	var fds []*descriptorpb.FileDescriptorProto
+	for _, f := range out.Files() {
+		fds = append(fds, f.FileDescriptorProto())
+	}
+	ri, bad := indexResult(fds)
+	if bad != nil {
+		return bad, out, nil
+	}
+
+	// 1. links
+	if lerr := linkFiles(fds, c.prelinked); lerr != nil {
+		for n, d := range ri.Msgs {
+			if d.GetOptions().GetMapEntry() && len(d.Field) != 2 {
+				return &finding{"links/map-entry-lost-field", fmt.Sprintf("the filtered image does not link: map entry %s is left with %d field(s) because the map's value type was excluded; the map field should have been dropped: %v", n, len(d.Field), lerr)}, out, nil
+			}
+		}
+		if len(fc.Include) == 0 {
+			for _, f := range out.Files() {
+				if f.IsImport() && !isWKT(f.Path()) && strings.HasPrefix(lerr.Error(), f.Path()+": ") {
+					return &finding{"links/import-file-content-not-walked", fmt.Sprintf("exclude-only filter: import file %s is kept with content that was never walked (it is kept as is, but the import of the file it needs / the excluded type it references is gone): %v", f.Path(), lerr)}, out, nil
+				}
+			}
+		}
+		if strings.Contains(lerr.Error(), "has an invalid oneof index") {
+			return &finding{"links/oneof-index-not-remapped", fmt.Sprintf("a oneof whose members all had excluded types was dropped, but the oneof_index of the fields of the following oneofs was not renumbered: %v", lerr)}, out, nil
+		}
+		msg := normErr(lerr)
+		if i := strings.Index(msg, ": "); i >= 0 && strings.HasSuffix(msg[:i], ".proto") {
+			msg = msg[i+2:]
+		}
+		return &finding{"links/other/" + msg, fmt.Sprintf("the filtered image does not link: %v", lerr)}, out, nil
+	}
+	st.inc("clause_links_checked")
+
+	// 2. no excluded element, no reference to one
+	for _, p := range ri.Order {
+		if ex.Xc[p] {
+			return &finding{"no-excluded/present/file", fmt.Sprintf("file %s of an excluded package is in the filtered image", p)}, out, nil
+		}
+	}
+	for n, k := range ri.Names {
+		if ex.Xc[n] {
+			return &finding{"no-excluded/present/" + k.String(), fmt.Sprintf("excluded %s %s is in the filtered image", k, n)}, out, nil
+		}
+	}
+	for _, r := range ri.Refs {
+		if ex.Xc[r.To] {
+			return &finding{"no-excluded/referenced/" + r.Kind, fmt.Sprintf("%s (%s) still references excluded %s", r.From, r.Kind, r.To)}, out, nil
+		}
+	}
+	if len(fc.Exclude) > 0 {
+		st.inc("clause_no_excluded_checked")
+	}
+	if ex.Contradictory != "" {
+		// the property says nothing more about a contradictory filter that was accepted
+		st.inc("contradictory_filter_accepted")
+		return nil, nil, nil
+	}
+
+	// 3. closure (lower bound) and minimality (upper bound)
+	for _, n := range sortedKeys(ex.L.Present) {
+		if _, ok := ri.Names[n]; !ok {
+			e := m.El[n]
+			return &finding{"closure/missing/" + e.Kind.String() + "/" + ex.L.Why[n], fmt.Sprintf("%s %s is required (%s) but is not in the filtered image", e.Kind, n, ex.L.Why[n])}, out, nil
+		}
+	}
+	for _, p := range sortedKeys(ex.L.Files) {
+		if _, ok := ri.Files[p]; !ok {
+			return &finding{"closure/missing/file", fmt.Sprintf("file %s is required but is not in the filtered image", p)}, out, nil
+		}
+	}
+	var extra []string
+	for n := range ri.Names {
+		if !ex.U.Present[n] {
+			extra = append(extra, n)
+		}
+	}
+	if len(extra) > 0 {
+		sort.Strings(extra)
+		for _, n := range extra {
+			if ex.DroppedExtExtendees[n] {
+				return &finding{"minimal/extra/extendee-of-dropped-extension", fmt.Sprintf("message %s (and what it needs: %d elements in all) is in the filtered image only because it is the extendee of an extension that was itself dropped (its type is excluded); nothing that survives needs it, and filtering the result again removes it", n, len(extra))}, out, nil
+			}
+		}
+		return &finding{"minimal/extra/" + ri.Names[extra[0]].String(), fmt.Sprintf("%s %s is in the filtered image although nothing that was asked for needs it", ri.Names[extra[0]], extra[0])}, out, nil
+	}
+	for _, p := range ri.Order {
+		if !ex.U.Files[p] {
+			return &finding{"minimal/extra/file", fmt.Sprintf("file %s is in the filtered image although nothing that was asked for needs it", p)}, out, nil
+		}
+	}
+	st.inc("clause_closure_checked")
+	if ex.Exact {
+		st.inc("closure_exact_cases")
+	}
+	if len(ri.Names) < len(m.El) {
+		st.inc("filter_removed_something")
+	}
+
+	// 4. surviving elements unchanged
+	shell := map[string]bool{}
+	for n, d := range ri.Msgs {
+		e := m.El[n]
+		if e == nil {
+			return &finding{"unchanged/unknown-element", fmt.Sprintf("message %s does not exist in the original image", n)}, out, nil
+		}
+		if !e.HasMembers {
+			continue
+		}
+		isShell := len(d.Field) == 0 && len(d.OneofDecl) == 0 && len(d.ExtensionRange) == 0 && len(d.ReservedRange) == 0 && len(d.ReservedName) == 0
+		if isShell && !ex.L.Full[n] {
+			shell[n] = true
+		}
+		if !isShell && !ex.U.Full[n] {
+			return &finding{"minimal/unstripped-namespace-message", fmt.Sprintf("message %s is only needed as the namespace of a nested declaration but keeps its members", n)}, out, nil
+		}
+	}
+	if len(shell) > 0 {
+		st.inc("shell_cases")
+	}
+	eb := &expectedBuilder{ex: ex, ri: ri, shell: shell}
+	for _, f := range out.Files() {
+		p := f.Path()
+		orig := c.bi.pristine[p]
+		if orig == nil {
+			return &finding{"unchanged/unknown-file", fmt.Sprintf("file %s does not exist in the original image", p)}, out, nil
+		}
+		if f.IsImport() != c.bi.isImport[p] {
+			return &finding{"unchanged/is-import-flag", fmt.Sprintf("file %s changed its import flag", p)}, out, nil
+		}
+		if in := c.img.GetFile(p); in != nil && (in.ExternalPath() != f.ExternalPath() || in.LocalPath() != f.LocalPath() || in.IsSyntaxUnspecified() != f.IsSyntaxUnspecified() || in.CommitID() != f.CommitID()) {
+			return &finding{"unchanged/image-file-attributes", fmt.Sprintf("file %s changed its external path / local path / syntax-unspecified flag / commit", p)}, out, nil
+		}
+		act := f.FileDescriptorProto()
+		if _, same := c.prelinked[act]; same {
+			// Untouched descriptor of the (verified unmodified / WKT) input: equal by identity. For
+			// it to be right nothing of it may be excluded, which clause 2 has established.
+			if isWKT(p) {
+				continue
+			}
+		}
+		exp := eb.file(orig)
+		a2 := shallow(act)
+		a2.Dependency, a2.PublicDependency, a2.WeakDependency, a2.SourceCodeInfo = nil, nil, nil, nil
+		if !proto.Equal(exp, a2) {
+			sig, what := diffFile(exp, a2)
+			return &finding{"unchanged/" + sig, what}, out, nil
+		}
+	}
+	st.inc("clause_unchanged_checked")
+	if eb.dropped.fields > 0 {
+		st.inc("member_fields_dropped_cases")
+	}
+	if eb.dropped.oneofs > 0 {
+		st.inc("oneofs_dropped_cases")
+	}
+
+	// 5. dependency lists
+	for _, f := range out.Files() {
+		p := f.Path()
+		act, orig := f.FileDescriptorProto(), c.bi.pristine[p]
+		seen := map[string]bool{}
+		for _, d := range act.Dependency {
+			if seen[d] {
+				return &finding{"deps/duplicate", fmt.Sprintf("%s imports %s twice", p, d)}, out, nil
+			}
+			seen[d] = true
+			if !m.TransDeps[p][d] {
+				return &finding{"deps/foreign", fmt.Sprintf("%s imports %s which it did not (transitively) import before", p, d)}, out, nil
+			}
+		}
+		for kindName, pair := range map[string][2][]int32{"public": {act.PublicDependency, orig.PublicDependency}, "weak": {act.WeakDependency, orig.WeakDependency}} {
+			was := map[string]bool{}
+			for _, i := range pair[1] {
+				was[orig.Dependency[i]] = true
+			}
+			for _, i := range pair[0] {
+				if int(i) >= len(act.Dependency) || !was[act.Dependency[i]] {
+					return &finding{"deps/" + kindName + "-index", fmt.Sprintf("%s: %s dependency index %d does not point at a dependency that was %s in the original (dependencies now %v)", p, kindName, i, kindName, act.Dependency)}, out, nil
+				}
+			}
+		}
+		if len(orig.PublicDependency) > 0 || len(orig.Dependency) != len(act.Dependency) {
+			st.inc("dependency_lists_rewritten")
+		}
+	}
+
+	// 6. comments / source info
+	sci := &sciStats{}
+	for _, f := range out.Files() {
+		p := f.Path()
+		act, orig := f.FileDescriptorProto(), c.bi.pristine[p]
+		if _, same := c.prelinked[act]; same && isWKT(p) {
+			continue
+		}
+		survives := func(step string) bool {
+			switch {
+			case strings.HasPrefix(step, "dep:"):
+				return contains(act.Dependency, step[4:])
+			case strings.HasPrefix(step, "public:"):
+				for _, i := range act.PublicDependency {
+					if int(i) < len(act.Dependency) && act.Dependency[i] == step[7:] {
+						return true
+					}
+				}
+				return false
+			case strings.HasPrefix(step, "weak:"):
+				for _, i := range act.WeakDependency {
+					if int(i) < len(act.Dependency) && act.Dependency[i] == step[5:] {
+						return true
+					}
+				}
+				return false
+			}
+			if i := strings.Index(step, "/field:"); i >= 0 {
+				d := ri.Msgs[step[:i]]
+				for _, fd := range d.GetField() {
+					if fd.GetName() == step[i+7:] {
+						return true
+					}
+				}
+				return false
+			}
+			if i := strings.Index(step, "/oneof:"); i >= 0 {
+				d := ri.Msgs[step[:i]]
+				for _, o := range d.GetOneofDecl() {
+					if o.GetName() == step[i+7:] {
+						return true
+					}
+				}
+				return false
+			}
+			_, ok := ri.Names[step]
+			return ok
+		}
+		if fnd := checkSourceInfo(orig, act, c.bi.sci[p], survives, func(n string) bool { return shell[n] }, sci); fnd != nil {
+			return fnd, out, nil
+		}
+	}
+	st.inc("clause_comments_checked")
+	st.add("locations_compared", sci.Compared)
+	st.add("locations_with_comments_compared", sci.Comments)
+	st.add("locations_moved", sci.Moved)
+
+	// 7. idempotence: the same filter again, restricted to the names that still exist
+	missingInclude := false
+	for _, n := range fc.Include {
+		if _, ok := ri.Names[n]; !ok {
+			if _, isPkg := m.Pkgs[n]; !isPkg {
+				missingInclude = true
+			}
+		}
+	}
+	if !ex.Exact {
+		st.inc("idempotence_skipped_order_dependent")
+	}
+	if len(fc.Include) > 0 && !missingInclude && ex.Exact {
+		var exc2 []string
+		for _, n := range fc.Exclude {
+			if _, ok := ri.Names[n]; ok {
+				exc2 = append(exc2, n)
+			}
+		}
+		again, err2, p2 := safeFilter(out, filterOptions(fc, fc.Include, exc2))
+		switch {
+		case p2 != nil:
+			return &finding{"idempotent/panic", fmt.Sprintf("filtering the filtered image again panicked: %v", p2)}, out, nil
+		case err2 != nil:
+			for _, f := range out.Files() {
+				fd := f.FileDescriptorProto()
+				if len(fd.MessageType)+len(fd.EnumType)+len(fd.Service)+len(fd.Extension) == 0 && strings.Contains(err2.Error(), fmt.Sprintf("missing %q", f.Path())) {
+					return &finding{"no-error/file-without-types/missing-file", fmt.Sprintf("the filtered image contains file %s which has no types left; filtering it again with the same include names fails on that file: %v", f.Path(), err2)}, out, nil
+				}
+			}
+			return &finding{"idempotent/error/" + normErr(err2), fmt.Sprintf("filtering the filtered image again with the same include names failed: %v", err2)}, out, nil
+		}
+		if d := diffImages(out, again); d != "" {
+			return &finding{"idempotent/differs/" + strings.SplitN(d, ":", 2)[0], "filtering the filtered image again changed it: " + d + nameDelta(out, again)}, out, nil
+		}
+		st.inc("clause_idempotence_checked")
+	}
+	return nil, out, nil
+}
+
+// nameDelta lists the elements that a second filtering removed or added.
+func nameDelta(a, b bufimage.Image) string {
+	names := func(img bufimage.Image) map[string]kind {
+		var fds []*descriptorpb.FileDescriptorProto
+		for _, f := range img.Files() {
+			fds = append(fds, f.FileDescriptorProto())
+		}
+		ri, _ := indexResult(fds)
+		return ri.Names
+	}
+	an, bn := names(a), names(b)
+	var gone, added []string
+	for n := range an {
+		if _, ok := bn[n]; !ok {
+			gone = append(gone, n)
+		}
+	}
+	for n := range bn {
+		if _, ok := an[n]; !ok {
+			added = append(added, n)
+		}
+	}
+	sort.Strings(gone)
+	sort.Strings(added)
+	return fmt.Sprintf(" (removed by the second pass: %v; added: %v)", gone, added)
+}
+
+// diffImages compares two images file by file ("" if equal); the text before the first ':' is a stable class.
+func diffImages(a, b bufimage.Image) string {
+	af, bf := a.Files(), b.Files()
+	if len(af) != len(bf) {
+		return fmt.Sprintf("file-count: %d vs %d files", len(af), len(bf))
+	}
+	for i := range af {
+		if af[i].Path() != bf[i].Path() {
+			return fmt.Sprintf("file-order: file #%d is %s vs %s", i, af[i].Path(), bf[i].Path())
+		}
+		if af[i].IsImport() != bf[i].IsImport() {
+			return fmt.Sprintf("import-flag: %s", af[i].Path())
+		}
+		x, y := af[i].FileDescriptorProto(), bf[i].FileDescriptorProto()
+		if x == y {
+			continue
+		}
+		if !proto.Equal(x, y) {
+			x2, y2 := shallow(x), shallow(y)
+			x2.SourceCodeInfo, y2.SourceCodeInfo = nil, nil
+			if proto.Equal(x2, y2) {
+				return fmt.Sprintf("source-info: %s differs only in source code info", af[i].Path())
+			}
+			x2.Dependency, x2.PublicDependency, x2.WeakDependency = nil, nil, nil
+			y2.Dependency, y2.PublicDependency, y2.WeakDependency = nil, nil, nil
+			if proto.Equal(x2, y2) {
+				return fmt.Sprintf("dependencies: %s imports %v vs %v", af[i].Path(), x.Dependency, y.Dependency)
+			}
+			return fmt.Sprintf("descriptor: %s differs", af[i].Path())
+		}
+	}
+	return ""
+}
+
+// evalInPlace runs the same filter with WithMutateInPlace on a private deep copy and compares with the copy-mode outcome.
+func (c *itemCtx) evalInPlace(fc *filterCase, copyOut bufimage.Image, copyErr error) *finding {
+	private, err := bufimage.CloneImage(c.bi.master)
+	if err != nil {
+		return nil
+	}
+	fc2 := *fc
+	fc2.InPlace = true
+	out, ierr, panicked := safeFilter(private, filterOptions(&fc2, fc.Include, fc.Exclude))
+	if panicked != nil {
+		return &finding{"in-place/panic", fmt.Sprintf("FilterImage(WithMutateInPlace) panicked: %v", panicked)}
+	}
+	if (ierr != nil) != (copyErr != nil) {
+		return &finding{"in-place/error-parity", fmt.Sprintf("copy mode error: %v; in-place error: %v", copyErr, ierr)}
+	}
+	if ierr != nil || copyOut == nil {
+		return nil
+	}
+	if d := diffImages(copyOut, out); d != "" {
+		return &finding{"in-place/differs/" + strings.SplitN(d, ":", 2)[0], "WithMutateInPlace gives a different image than copy mode: " + d}
+	}
+	c.st.inc("clause_in_place_compared")
+	return nil
+}
+
+// ---- enumeration ----
+
+type workItem struct {
+	bi   *builtImage
+	inc  []int
+	excs [][]int
+	grid []filterCase // option combinations (names empty)
+	inPl bool
+}
+
+func optionGrid(bi *builtImage, full bool, incHasImport bool) []filterCase {
+	var grid []filterCase
+	customs, knowns := []bool{false}, []bool{false}
+	if full && bi.hasExt {
+		customs, knowns = []bool{false, true}, []bool{false, true}
+	}
+	allows := []bool{false}
+	if incHasImport {
+		allows = []bool{false, true}
+	}
+	for _, nc := range customs {
+		for _, nk := range knowns {
+			for _, al := range allows {
+				grid = append(grid, filterCase{NoCustom: nc, NoKnown: nk, AllowImported: al})
+			}
+		}
+	}
+	return grid
+}
+
+func pick(names []string, idx []int) []string {
+	out := make([]string, len(idx))
+	for i, j := range idx {
+		out[i] = names[j]
+	}
+	return out
+}
+
+func run(r *evid.Run) {
+	ctx := context.Background()
+	r.Rule("case = (catalogue image, include set, exclude set, custom-options kept/dropped, known-extensions kept/dropped, allow-imported, copy/in-place); include and exclude sets are ALL subsets of size <= 2 (quick: <= 1 each with the full option grid, plus every (<=1, 2) and (2, <=1) combination with default options) of ALL names of the image (packages, messages, nested messages, map entries, groups, enums, services, methods, extensions, selected well-known names). A case is distinct non-trivial when its filter (image, include, exclude, options) is not contradictory, FilterImage removed at least one element, and all oracles ran on the result")
+	r.Assume("the second application for idempotence re-uses the include names and only those exclude names that still exist in the filtered image (an exclude name that was removed makes the second call fail with 'not found' by documented contract)")
+	r.Assume("option VALUES set on surviving descriptors are not counted as references to an excluded custom option or Any payload type (they are data, and stay byte-identical)")
+	r.Assume("known extensions are demanded only for messages that are included or referenced by type (the lower bound of the model); extensions pulled in transitively through other extensions are allowed but not demanded, because the implementation decides them by map iteration order")
+	r.Assume("images are built in-process by buf itself from .proto text; descriptor-level shapes the compiler never emits are out of scope")
+
+	var images []*builtImage
+	var covers []string
+	for _, spec := range catalogue {
+		bi, err := buildImage(ctx, spec)
+		if err != nil {
+			r.Incomplete(fmt.Sprintf("cannot build catalogue image %s: %v", spec.Name, err))
+			return
+		}
+		images = append(images, bi)
+		covers = append(covers, spec.Covers...)
+	}
+	sort.Strings(covers)
+	r.Set("images", len(images))
+	r.Set("reference_kinds_covered", covers)
+	universe := map[string]int{}
+	kinds := map[string]int{}
+	for _, bi := range images {
+		universe[bi.spec.Name] = len(bi.names)
+		for _, n := range bi.names {
+			if e, ok := bi.model.El[n]; ok {
+				kinds[e.Kind.String()]++
+			} else {
+				kinds["package"]++
+			}
+		}
+	}
+	r.Set("filter_universe_size_per_image", universe)
+	r.Set("filter_universe_by_kind", kinds)
+	maxSet := 2
+	r.Set("max_include_set", maxSet)
+	r.Set("max_exclude_set", maxSet)
+
+	var items []workItem
+	for _, bi := range images {
+		n := len(bi.names)
+		subsets := enum.Subsets(n, 0, 2)
+		small := enum.Subsets(n, 0, 1)
+		pairs := enum.Subsets(n, 2, 2)
+		hasImp := func(inc []int) bool {
+			for _, i := range inc {
+				if bi.importNm[bi.names[i]] {
+					return true
+				}
+			}
+			return false
+		}
+		if r.Quick() {
+			for _, inc := range small {
+				items = append(items, workItem{bi: bi, inc: inc, excs: small, grid: optionGrid(bi, true, hasImp(inc)), inPl: true})
+				items = append(items, workItem{bi: bi, inc: inc, excs: pairs, grid: optionGrid(bi, false, hasImp(inc)), inPl: true})
+			}
+			// (2, <=1) with default options, chunked to keep items balanced
+			for lo := 0; lo < len(pairs); lo += 8 {
+				for _, inc := range pairs[lo:min(lo+8, len(pairs))] {
+					items = append(items, workItem{bi: bi, inc: inc, excs: small, grid: optionGrid(bi, false, hasImp(inc)), inPl: true})
+				}
+			}
+		} else {
+			for _, inc := range subsets {
+				items = append(items, workItem{bi: bi, inc: inc, excs: subsets, grid: optionGrid(bi, true, hasImp(inc)), inPl: true})
+			}
+		}
+	}
+	r.Set("work_items", len(items))
+
+	var mu sync.Mutex
+	total := map[string]int{}
+	// Violations are collected first and reported at the end, so that the case written to the
+	// replay file is the smallest one of its signature and not whichever goroutine came first.
+	type vrec struct {
+		count int
+		what  string
+		fc    filterCase
+		key   string
+	}
+	collected := map[string]*vrec{}
+	record := func(f *finding, fc filterCase) {
+		b, _ := json.Marshal(fc)
+		key := fmt.Sprintf("%02d|%s", len(fc.Include)+len(fc.Exclude), b)
+		mu.Lock()
+		defer mu.Unlock()
+		v := collected[f.Sig]
+		if v == nil {
+			v = &vrec{key: key, what: f.What, fc: fc}
+			collected[f.Sig] = v
+		}
+		v.count++
+		if key < v.key {
+			v.key, v.what, v.fc = key, f.What, fc
+		}
+	}
+	r.ParallelFor(len(items), 0, func(i int) {
+		it := items[i]
+		st := &stats{m: map[string]int{}}
+		c, err := newItemCtx(it.bi, st)
+		if err != nil {
+			r.Incomplete(fmt.Sprintf("cannot prepare image %s: %v", it.bi.spec.Name, err))
+			return
+		}
+		inc := pick(it.bi.names, it.inc)
+		caseNo := 0
+		for _, xi := range it.excs {
+			if len(it.inc) == 0 && len(xi) == 0 {
+				continue // no filter at all
+			}
+			exc := pick(it.bi.names, xi)
+			for _, g := range it.grid {
+				fc := g
+				fc.Image, fc.Include, fc.Exclude = it.bi.spec.Name, inc, exc
+				r.Eval(1)
+				caseNo++
+				fnd, out, ferr, ex := c.evalCase(&fc)
+				if fnd != nil {
+					record(fnd, fc)
+					if fnd.Sig == "in-place/copy-mode-mutated-input" {
+						if c, err = newItemCtx(it.bi, st); err != nil {
+							return
+						}
+					}
+				} else if out != nil {
+					nontrivial := false
+					if len(out.Files()) != len(it.bi.order) {
+						nontrivial = true
+					} else {
+						for _, f := range out.Files() {
+							if _, same := c.prelinked[f.FileDescriptorProto()]; !same {
+								nontrivial = true
+							}
+						}
+					}
+					if nontrivial {
+						b, _ := json.Marshal(fc)
+						r.Distinct(string(b))
+					}
+				}
+				r.SampleEvery(i*131+caseNo, 4999, func() any { return fc })
+				if it.inPl && fnd == nil && ex.Contradictory == "" {
+					if ex.MustFail == "" && !ex.Exact && ferr == nil {
+						st.inc("in_place_skipped_order_dependent")
+						continue
+					}
+					r.Eval(1)
+					if f2 := c.evalInPlace(&fc, out, ferr); f2 != nil {
+						fc2 := fc
+						fc2.InPlace = true
+						record(f2, fc2)
+					}
+				}
+			}
+		}
+		// the well-known files of the shared input were never compared per case; do it once now
+		for _, f := range c.img.Files() {
+			if isWKT(f.Path()) && !proto.Equal(f.FileDescriptorProto(), it.bi.pristine[f.Path()]) {
+				record(&finding{"in-place/copy-mode-mutated-input", fmt.Sprintf("FilterImage without WithMutateInPlace modified the input file %s (image %s, include %v)", f.Path(), it.bi.spec.Name, inc)}, filterCase{Image: it.bi.spec.Name, Include: inc})
+			}
+		}
+		mu.Lock()
+		for k, v := range st.m {
+			total[k] += v
+		}
+		mu.Unlock()
+	})
+	var sigs []string
+	for sig := range collected {
+		sigs = append(sigs, sig)
+	}
+	sort.Strings(sigs)
+	for _, sig := range sigs {
+		v := collected[sig]
+		for k := 0; k < v.count; k++ {
+			r.Violate(sig, v.what, v.fc)
+		}
+	}
+	for k, v := range total {
+		r.Set(k, v)
+	}
+	for _, clause := range []string{"clause_links_checked", "clause_closure_checked", "clause_no_excluded_checked", "clause_unchanged_checked", "clause_comments_checked", "clause_no_error_checked", "clause_idempotence_checked", "clause_in_place_compared", "clause_contradictory_filter_rejected", "clause_must_fail", "member_fields_dropped_cases", "oneofs_dropped_cases", "shell_cases", "dependency_lists_rewritten", "locations_moved"} {
+		if total[clause] == 0 && !r.Expired() {
+			r.Incomplete("clause never exercised: " + clause)
+		}
+	}
+}
+
+// replay re-runs one recorded case.
+func replay(raw json.RawMessage) (string, bool) {
+	var fc filterCase
+	if err := json.Unmarshal(raw, &fc); err != nil {
+		return err.Error(), false
+	}
+	for _, spec := range catalogue {
+		if spec.Name != fc.Image {
+			continue
+		}
+		bi, err := buildImage(context.Background(), spec)
+		if err != nil {
+			return err.Error(), false
+		}
+		c, err := newItemCtx(bi, &stats{m: map[string]int{}})
+		if err != nil {
+			return err.Error(), false
+		}
+		base := fc
+		base.InPlace = false
+		fnd, out, ferr, _ := c.evalCase(&base)
+		if fnd == nil && fc.InPlace {
+			fnd = c.evalInPlace(&base, out, ferr)
+		}
+		if fnd != nil {
+			return fnd.Sig + ": " + fnd.What, true
+		}
+		return fmt.Sprintf("all oracles hold (error: %v)", ferr), false
+	}
+	return "unknown image " + fc.Image, false
+}
